@@ -137,7 +137,7 @@ impl Check for PairFeeLedger {
             .boxed()
     }
     fn cases(&self, tier: Tier) -> u32 {
-        tier.pick(24_000, 1_500_000)
+        tier.pick(24_000, 750_000)
     }
     fn min_nontrivial(&self) -> f64 {
         0.05
@@ -363,7 +363,7 @@ impl Check for TrioFeeLedger {
             .boxed()
     }
     fn cases(&self, tier: Tier) -> u32 {
-        tier.pick(18_000, 1_200_000)
+        tier.pick(18_000, 600_000)
     }
     fn min_nontrivial(&self) -> f64 {
         0.05
@@ -571,7 +571,7 @@ impl Check for VaultFeeLedger {
             .boxed()
     }
     fn cases(&self, tier: Tier) -> u32 {
-        tier.pick(24_000, 1_500_000)
+        tier.pick(24_000, 750_000)
     }
     fn min_nontrivial(&self) -> f64 {
         0.05
